@@ -139,8 +139,13 @@ def gen_cases(rng, forms, mode, n):
                     ops[i] = ("R", rng.choice(RTYPES), op[2])
                 elif op[0] == "M" and k < 5:
                     m = dict(op[1])
-                    what = rng.below(7)
-                    if what == 0:
+                    what = rng.below(10)
+                    if what >= 7:
+                        # keep the register type, change only the id (ids that do not exist in this mode, REX/EVEX extension bits)
+                        k2 = "base" if (what == 7 or not m["index"]) else "index"
+                        if m[k2] and not m[k2][0].startswith("#") and m[k2][0] not in ("label", "labelraw"):
+                            m[k2] = (m[k2][0], rng.choice(INTERESTING_IDS))
+                    elif what == 0:
                         m["base"] = rand_mem(rng, mode)[1]["base"]
                     elif what == 1:
                         m["index"] = rand_mem(rng, mode)[1]["index"]
@@ -308,7 +313,7 @@ def worker(arg):
                         if mm["index"] and mm["index"][0] in ("xmm", "ymm", "zmm") and mm["base"] and mm["base"][0] == "gp16":
                             bad_mem = True   # VSIB needs a SIB byte: impossible with 16-bit addressing
                         regs = [op[1][x] for x in ("base", "index") if op[1][x] and op[1][x][0] in ("gp16", "gp32", "gp64")]
-                        if len(set(r[0] for r in regs)) > 1 or any(r[1] >= (16 if mode == 64 else 8) for r in regs) or \
+                        if len(set(r[0] for r in regs)) > 1 or \
                            any(r[0] not in (areg, alt) for r in regs) or (regs and regs[0][0] == "gp16" and not (-32768 <= op[1]["disp"] < 65536)):
                             bad_mem = True
                 if bad_mem:
